@@ -679,7 +679,7 @@ pub fn run(tier: Tier, replay: Option<String>) -> i32 {
     if xen {
         ctx.assume("Xen build: the cell layouts use MmapXenFlags::UNIX mappings; grant regions (mapped in advance and on demand) are exercised on the emulated gntdev with page-sized regions");
     }
-    let u = if tier.thorough() { 8 } else { 7 };
+    let u = if tier.thorough() { 10 } else { 7 };
     if let Some(r) = ctx.replay_of.clone() {
         let c = &r["case"];
         let regs: Vec<(u64, u64)> = c["layout"].as_array().map(|a| a.iter().filter_map(|p| Some((p[0].as_u64()?, p[1].as_u64()?))).collect()).unwrap_or_default();
@@ -753,7 +753,7 @@ pub fn run(tier: Tier, replay: Option<String>) -> i32 {
             s.spawn(move || {
                 let l = Layout::from_cells(base, &c);
                 let ranges: Vec<(u64, usize)> = vec![(base + 1, 2), (base, 4), (base + 3, 3), (base + 5, 1), (base + 2, 1), (base + 1, 4)];
-                let depth = if tier.thorough() { 4 } else { 3 };
+                let depth = if tier.thorough() { 6 } else { 3 };
                 let m = build_mmap(&l).unwrap();
                 histories(ctx, anon, &m, &l, &ranges, depth);
                 if !xen {
